@@ -202,7 +202,11 @@ class Generator(Curve, Point):
             gen_k = deterministic_generate_k
         n = self._order
         k = gen_k(n, secret_exponent, val)  # type: ignore[arg-type]
+        attempts = 0
         while True:
+            attempts += 1
+            if attempts >= n:  # type: ignore[operator]
+                raise ValueError("no nonce yields a signature")
             p1 = k * self
             r = p1[0] % n  # type: ignore[operator]
             s = (self.inverse(k) * (val + (secret_exponent * r) % n)) % n  # type: ignore[operator]
@@ -211,7 +215,8 @@ class Generator(Curve, Point):
                 if p1[0] > n:  # type: ignore[operator]
                     recid += 2
                 return r, s, recid
-            k += 1
+            # try the next nonce, staying inside [1, n-1] (k == n would give the point at infinity)
+            k = k % (n - 1) + 1  # type: ignore[operator]
 
     def sign(
         self,
